@@ -116,6 +116,9 @@ type Run struct {
 	Traces      atomic.Int64
 
 	Distinct *HashSet // distinct non-trivial cases
+	// DistinctByConstruction counts non-trivial cases of enumerations that generate every case exactly once
+	// (a mixed-radix index): they are distinct by construction and need no hash set entry.
+	DistinctByConstruction atomic.Int64
 	Outcomes *HashSet // distinct observed outcomes (vacuity guard)
 
 	mu       sync.Mutex
@@ -325,7 +328,7 @@ func (r *Run) Finish(exhaustive bool, replay Replayer) int {
 
 	cov := map[string]interface{}{
 		"evaluations":                   r.Evals.Load(),
-		"distinct_nontrivial":           r.Distinct.Len(),
+		"distinct_nontrivial":           int64(r.Distinct.Len()) + r.DistinctByConstruction.Load(),
 		"rule":                          r.Rule,
 		"samples":                       r.samples,
 		"states":                        r.States.Load(),
@@ -386,7 +389,7 @@ func (r *Run) Finish(exhaustive bool, replay Replayer) int {
 	}
 
 	fmt.Printf("property=%s tier=%s evaluations=%d states=%d transitions=%d traces=%d distinct_nontrivial=%d outcomes=%d exhaustive=%v wall=%.1fs\n",
-		r.ID, r.Tier, r.Evals.Load(), r.States.Load(), r.Transitions.Load(), r.Traces.Load(), r.Distinct.Len(), r.Outcomes.Len(), exhaustive, wall)
+		r.ID, r.Tier, r.Evals.Load(), r.States.Load(), r.Transitions.Load(), r.Traces.Load(), int64(r.Distinct.Len())+r.DistinctByConstruction.Load(), r.Outcomes.Len(), exhaustive, wall)
 	for _, id := range kfIDs {
 		what := ""
 		for _, k := range r.kfs {
